@@ -452,9 +452,12 @@ def expr_run_config(build, batch, bi, sig, route, q, workdir, budget=None):
         r = progrun.run_program(build, prog, route, workdir, q, timeout=900, cpu_limit=400)
         if r.get("timeout") or r["phase"] in ("compile", "javac"):
             cl = progcheck.classify(r, {"status": "done", "out": ""}) or ("?", "")
-            if r["phase"] == "compile" and cl[0] == "compile-reject":
-                raise vlib.MachineryError("generated expression program rejected by the compiler (%s -Q%d): %s\n%s"
-                                          % (route, q, cl[1], (r["out"] + r["err"])[:1500]))
+            if r["phase"] == "compile" and not r.get("timeout"):
+                # the compiler refuses (or faults on) the unit: every case of it is without a result on this configuration
+                for c in remaining:
+                    out[c["id"]] = ("fault", "%s: %s" % cl)
+                remaining = []
+                break
             if len(remaining) == 1:
                 out[remaining[0]["id"]] = ("fault", "%s: %s" % cl)
                 remaining = []
